@@ -155,7 +155,9 @@ def faceId3 (n d : Nat) : P X Nat := do
   if lb = 0 ∨ rb = 0 then do
     let lb' ← rB 0 d
     let rb' ← rB 1 b3
-    let (_, _, _, mn') ← faceWalk3 0 1 (n + 1) lb' rb' marked mn
+    let mn1 := if lb' ≠ 0 then min mn lb' else mn
+    let mn2 := if rb' ≠ 0 then min mn1 rb' else mn1
+    let (_, _, _, mn') ← faceWalk3 0 1 (n + 1) lb' rb' marked mn2
     pure mn'
   else pure mn
 
